@@ -6,6 +6,7 @@ import CarModel.Driver.Walk
 import CarModel.Driver.Crash
 import CarModel.Driver.Deferred
 import CarModel.Driver.Xform
+import CarModel.Driver.IdxSer
 namespace Car.Driver
 
 structure DState where
@@ -51,6 +52,7 @@ def step (st : DState) (line : String) : DState × String × String :=
     else if fam == "walk" then let r := famWalk H kv; (st, r.1, r.2)
     else if fam == "crash" then let r := famCrash H kv; (st, r.1, r.2)
     else if fam == "xform" then let r := famXform kv; (st, r.1, r.2)
+    else if fam == "idxser" then let r := famIdxSer kv; (st, r.1, r.2)
     else if fam == "idx" then let r := famIdx kv; (st, r.1, r.2)
     else (st, "bad-op", "")
 
